@@ -16,6 +16,7 @@ void harness(void)
     struct timer_mgr *t = xv_tm_any();
     double rel = nondet_double();
     int64_t id = timer_mgr_schedule(t, rel);
+    XV_ASSERT(xv_tm_links_ok(t), "PO[C13] timer_mgr_schedule.list_well_linked");
     if (xv_gt.n == 0) XV_CANARY("first timer");
     if (xv_gt.n == 3 && xv_tt.f2ts_in == xv_gt.exp[1] && xv_gt.exp[1] < xv_gt.exp[0] && xv_gt.exp[1] < xv_gt.exp[2]) XV_CANARY("an older timer stays the earliest");
     if (xv_gt.n == 2 && xv_tt.f2ts_in == xv_tt.now + rel && rel > 0) XV_CANARY("the new timer is the earliest");
